@@ -309,6 +309,42 @@ fn main() {
                 writeln!(out, "{}", json!({"i": i, "fails": cx.fails})).unwrap();
             }
         }
+        "introlen" => {
+            // C17, first clause: introspect_len() == number of children fetchable by consecutive indices from 0
+            let input = std::fs::File::open(&args[2]).expect("records file");
+            let mut out = BufWriter::new(std::fs::File::create(&args[3]).expect("out file"));
+            for (i, line) in std::io::BufReader::new(input).lines().enumerate() {
+                let line = line.unwrap();
+                if line.trim().is_empty() {
+                    continue;
+                }
+                let rec: Value = serde_json::from_str(&line).expect("record json");
+                let key = canon(&rec["t"]);
+                let mut fails = vec![];
+                let mut obs = json!(null);
+                match reg.get(&key) {
+                    None => fails.push(json!({"check": "tool.missing_type", "detail": key})),
+                    Some(e) => {
+                        if let Some(io) = &e.intro {
+                            let mv: MV = serde_json::from_value(rec["v"].clone()).expect("model value");
+                            match io.introspect_counts(&mv) {
+                                Outcome::Ok((len, n, extra)) => {
+                                    obs = json!({"len": len, "children": n});
+                                    if len != n {
+                                        fails.push(json!({"check": "c17.len", "detail": format!("introspect_len() = {} but {} children can be fetched by index", len, n)}));
+                                    }
+                                    if let Some(x) = extra {
+                                        fails.push(json!({"check": "c17.gap", "detail": format!("child {} exists although child {} does not (not consecutive)", x, n)}));
+                                    }
+                                }
+                                other => fails.push(json!({"check": "c17.len.panic", "detail": format!("{:?}", other)})),
+                            }
+                        }
+                    }
+                }
+                writeln!(out, "{}", json!({"i": i, "fails": fails, "obs": obs})).unwrap();
+            }
+        }
         "schemas" => {
             // impl -> spec observations for C12: real schema + real bytes per (type, version)
             // input lines: {t, ver, vs:[model values]}
